@@ -281,6 +281,11 @@ def _decoder_history(groups, rng, n):
                         "history": [[a, hex(b)] for a, b, _ in log],
                         "what": f"PGN {pgn} payload {p:#x}: database rule selects {exp['Id'] if exp else None}; a long-lived decoder "
                                 f"returns {got} after {k} earlier payloads, a fresh decoder returns {fresh}"}
+            if fresh != "raises":
+                # the decoder's public path itself (not only the generated dispatcher) answers differently from the rule
+                return {"key": "select:public-path", "kind": "history", "history": [[pgn, hex(p)]],
+                        "what": f"PGN {pgn} payload {p:#x}: database rule selects {exp['Id'] if exp else None}; the decoder "
+                                f"(decode_basic_string, new or long-lived) returns {fresh}"}
     return None
 
 
